@@ -66,3 +66,6 @@ Print Assumptions C17_agc_clamp_needs_only_min_le_max.
 Theorem C17_squelch_expect_unreachable : forall me s bit po pc, fst (sq_input me s bit po pc) <> SqPanic.
 Proof. exact squelch_never_panics. Qed.
 Print Assumptions C17_squelch_expect_unreachable.
+
+(** the "disabled" DC blocker (length 1) is a no-op, bit-exact in binary32: Properties/C17_float.v (dependency; assumptions redirected) *)
+From Sameold Require Import Properties.C17_float.
